@@ -28,15 +28,18 @@ func NewRelay(ctx context.Context, in, out ITracer, transformer Transformer) {
 	ch := in.Subscribe()
 	handle := out.RegisterSender()
 	go func() {
+		ctxDone := ctx.Done()
 		for {
 			select {
 			case <-in.Done():
 				handle.Done()
 				in.Unsubscribe(ch)
 				return
-			case <-ctx.Done():
+			case <-ctxDone:
 				// wait until `in` Tracer is done
 				//return
+				// (stop selecting on the closed channel, otherwise this loop spins)
+				ctxDone = nil
 			case trace, ok := <-ch:
 				if ok {
 					traces := transformer(trace)
